@@ -17,7 +17,8 @@
 package caching
 
 import (
-	"strings"
+	"unicode"
+	"unicode/utf8"
 	"unsafe"
 
 	"github.com/bytedance/sonic/internal/rt"
@@ -100,16 +101,52 @@ func (self *FieldMap) Set(name string, i int) {
 	s.Name = name
 
 	/* add the case-insensitive version, prefer the one with smaller field ID */
-	key := strings.ToLower(name)
+	key := FoldName(name)
 	if v, ok := self.m[key]; !ok || i < v {
 		self.m[key] = i
 	}
 }
 
 func (self *FieldMap) GetCaseInsensitive(name string) int {
-	if i, ok := self.m[strings.ToLower(name)]; ok {
+	if i, ok := self.m[FoldName(name)]; ok {
 		return i
 	} else {
 		return -1
+	}
+}
+
+// FoldName returns a folded string such that FoldName(x) == FoldName(y) is
+// identical to strings.EqualFold(x, y). It is the folding encoding/json uses
+// for its case-insensitive field matching (strings.ToLower is not: it keeps
+// apart 'K' and the Kelvin sign, 's' and the long s).
+func FoldName(in string) string {
+	var arr [32]byte // large enough for most JSON names
+	out := arr[:0]
+	for i := 0; i < len(in); {
+		// Handle single-byte ASCII.
+		if c := in[i]; c < utf8.RuneSelf {
+			if 'a' <= c && c <= 'z' {
+				c -= 'a' - 'A'
+			}
+			out = append(out, c)
+			i++
+			continue
+		}
+		// Handle multi-byte Unicode.
+		r, n := utf8.DecodeRuneInString(in[i:])
+		out = utf8.AppendRune(out, foldRune(r))
+		i += n
+	}
+	return string(out)
+}
+
+// foldRune returns the smallest rune for all runes in the same fold set.
+func foldRune(r rune) rune {
+	for {
+		r2 := unicode.SimpleFold(r)
+		if r2 <= r {
+			return r2
+		}
+		r = r2
 	}
 }
